@@ -471,6 +471,8 @@ def _layout_of(expr_or_stmt, P='P', M='M'):
     None: not recognised.  Slice bounds are compared with p*M:(p+1)*M resp. m*P:(m+1)*P by evaluating them for several
     integer valuations of (loop variable, M, P) - `p*M:p*M+M` and `(p+1)*M-M:...` are the same slice."""
     n = expr_or_stmt
+    Pset = {P} if isinstance(P, str) else set(P)       # several names may hold the number of directions (`D, P = x.data.shape[:2]` twice)
+    P = sorted(Pset)[0]
 
     def ev(e, env):
         if isinstance(e, ast.Constant) and isinstance(e.value, int):
@@ -484,14 +486,15 @@ def _layout_of(expr_or_stmt, P='P', M='M'):
 
     for sub in ast.walk(n):
         if isinstance(sub, ast.Slice) and sub.lower is not None and sub.upper is not None:
-            names = {x.id for x in ast.walk(sub) if isinstance(x, ast.Name)} - {P, M}
+            names = {x.id for x in ast.walk(sub) if isinstance(x, ast.Name)} - Pset - {M}
             if len(names) != 1:
                 continue
             v = names.pop()
             block = inter = True
             try:
                 for vv, mm, pp in ((0, 2, 3), (1, 2, 3), (2, 3, 5), (3, 4, 2), (1, 5, 7)):
-                    env = {v: vv, M: mm, P: pp}
+                    env = {v: vv, M: mm}
+                    env.update({p_: pp for p_ in Pset})
                     lo, hi = ev(sub.lower, env), ev(sub.upper, env)
                     block = block and (lo, hi) == (vv * mm, (vv + 1) * mm)
                     inter = inter and (lo, hi) == (vv * pp, (vv + 1) * pp)
@@ -517,7 +520,7 @@ def _layout_of(expr_or_stmt, P='P', M='M'):
                     i0 = recv.slice.elts[0] if isinstance(recv.slice, ast.Tuple) and recv.slice.elts else recv.slice
                     one = isinstance(i0, ast.Constant) and isinstance(i0.value, int)
                 if isinstance(shp, ast.Tuple) and len([e for e in shp.elts if not isinstance(e, ast.Starred)]) >= 3:
-                    names = [norm(e) for e in shp.elts if not isinstance(e, ast.Starred)][:3]
+                    names = [P if norm(e) in Pset else norm(e) for e in shp.elts if not isinstance(e, ast.Starred)][:3]
                     pair = names[:2] if one else names[1:]
                     if pair == [P, M]:
                         return 'BLOCK'
@@ -526,13 +529,13 @@ def _layout_of(expr_or_stmt, P='P', M='M'):
             if last == 'repeat' and len(c.args) >= 2:
                 if norm(c.args[1]) == M:
                     return 'BLOCK'          # each direction repeated M times in a row
-                if norm(c.args[1]) == P:
+                if norm(c.args[1]) in Pset:
                     return 'INTERLEAVED'
             if last == 'tile' and len(c.args) >= 2 and isinstance(c.args[1], (ast.Tuple, ast.BinOp)):
                 t_ = c.args[1]
                 while isinstance(t_, ast.BinOp) and isinstance(t_.op, ast.Add):
                     t_ = t_.left
-                reps = [norm(e) for e in t_.elts] if isinstance(t_, ast.Tuple) else []
+                reps = [P if norm(e) in Pset else norm(e) for e in t_.elts] if isinstance(t_, ast.Tuple) else []
                 if M in reps and P not in reps:
                     return 'INTERLEAVED'    # whole block of P directions repeated M times: j -> p = j % P
                 if P in reps and M not in reps:
@@ -599,13 +602,19 @@ def rule_drv_layout(ctx):
     bar_names = _reaching_names(fi, list(pb[0].args), pb[0].lineno) - set(fi.params) - fwd_names
     # names of the number of directions / outputs: P from `D, P = x.data.shape[:2]`, M from `<dependent>.size`
     Pn, Mn = 'P', 'M'
+    psrc = {}
     for st in ast.walk(holder):
         if isinstance(st, ast.Assign) and len(st.targets) == 1:
             t, v = st.targets[0], st.value
             if isinstance(t, ast.Tuple) and len(t.elts) == 2 and norm(v).endswith('.data.shape[:2]') and isinstance(t.elts[1], ast.Name):
-                Pn = t.elts[1].id
+                psrc.setdefault(norm(v), []).append(t.elts[1].id)
             if isinstance(t, ast.Name) and 'dependentFunctionList' in norm(v) and norm(v).endswith('.size'):
                 Mn = t.id
+    if psrc:
+        # every name bound to the second extent of the argument's coefficient array holds P
+        key = ('%s.data.shape[:2]' % xpar) if ('%s.data.shape[:2]' % xpar) in psrc else sorted(psrc)[-1]
+        Pn = tuple(sorted(set(psrc[key])))
+        Pn = Pn[0] if len(Pn) == 1 else Pn
     for st in walk_no_nested(fi.node):
         if isinstance(st, ast.Assign) and len(st.targets) == 1 and isinstance(st.targets[0], ast.Name) and 'dependentFunctionList' in norm(st.value) \
                 and norm(st.value).endswith('.size'):
@@ -1033,7 +1042,7 @@ def rule_rec_name(ctx):
         if disp.generated:
             ok = m.lookup_method('UTPM', got) is not None
         else:
-            ok = got in tp.class_dispatch_targets(disp) and m.lookup_method('UTPM', got) is not None
+            ok = got in tp.class_dispatch_targets(disp, m) and m.lookup_method('UTPM', got) is not None
         if ok:
             r.ok(construct=fi.qualname, nontrivial=True,
                  sample='Function.%s records %s -> %s -> UTPM.%s' % (fi.name, cal, disp.fq, got))
